@@ -452,12 +452,26 @@ def check(ctx):
         def _guarded(pc_):
             return any(c_[0] == "cmp" and c_[1] == "is" and c_[2] == get_call and c_[3] == NONE and not pol_ for c_, pol_ in pc_)
 
-        def _derefs(t_):
-            for y in ir.walk(t_):
-                if y[0] in ("attr", "sub") and y[1] == get_call:
-                    return y
-                if y[0] == "call" and y[1] != get_call[1] and (get_call in y[2] or any(v_ == get_call for _, v_ in y[3])):
-                    return y
+        def _derefs(t_, depth=0):
+            """a dereference of the download inside t_ that is not under a decision `download is None ? .. : ..` taken inside the term itself
+            (one `return` after an if / else is such a decision)"""
+            if not isinstance(t_, tuple) or not t_ or depth > 60:
+                return None
+            if t_[0] in ("phi", "ifexp") and isinstance(t_[1], tuple) and t_[1] and t_[1][0] == "cmp" and t_[1][2] == get_call and t_[1][3] == NONE \
+                    and t_[1][1] in ("is", "is not", "==", "!="):
+                none_branch = t_[2] if t_[1][1] in ("is", "==") else t_[3]
+                return _derefs(none_branch, depth + 1)  # the other branch is the 'is not None' path
+            if t_[0] in ("attr", "sub") and t_[1] == get_call:
+                return t_
+            if t_[0] == "call" and t_[1] != get_call[1] and t_ != get_call and (get_call in t_[2] or any(v_ == get_call for _, v_ in t_[3])):
+                return t_
+            if t_ == get_call:
+                return None
+            for x_ in t_:
+                if isinstance(x_, tuple):
+                    d_ = _derefs(x_, depth + 1)
+                    if d_ is not None:
+                        return d_
             return None
         uses = [(pc_, e_, n_) for pc_, e_, n_ in vs.effects] + [(pc_, t_, n_) for pc_, _, t_, n_ in vs.assigns] + list(vs.returns)
         for pc_, e_, n_ in uses:
